@@ -67,9 +67,9 @@ def tla_lit(v):
     raise ValueError(v)
 
 
-SER_PSETS_QUICK = ["bfv_8_17_20,60,30", "bgv_8_17_33,41,50", "ckks_8_0_25,50,40"]
+SER_PSETS_QUICK = ["bfv_8_17_20,60,30", "bgv_8_17_33,41,50", "ckks_8_0_25,50,40", "rnsp_8_17,97_33,41,50"]
 SER_PSETS_THOROUGH = SER_PSETS_QUICK + ["bfv_16_97_8,16,24,32,40,48,56,60", "bgv_4_17_60,60,60", "ckks_16_0_60,20,30,60", "bfv_8_17_50,50,50,50",
-                                        "bgv_8_17_17,23,31,60", "ckks_4_0_30,30,30"]
+                                        "bgv_8_17_17,23,31,60", "ckks_4_0_30,30,30", "rnsp_16_97,193,257_20,60,30,40", "rnsp_8_17_60,60"]
 
 
 def check_c14(rep):
@@ -87,13 +87,14 @@ def check_c14(rep):
     rep.cov["distinct_nontrivial"] = len({json.dumps(e["shape"], sort_keys=True) + e["name"].split("_")[0] for e in events})
     rep.cov["rule"] = ("events = one per object of the catalogue (parameters, plaintexts, secret/public/relinearization/Galois/key-switching keys seeded and expanded, "
                        "ciphertexts fresh/seeded/size 3 and 7/switched/either representation in compact, full and selected-terms formats with 4 term subsets, "
-                       "1-3 dimensional ciphertext and plaintext containers incl. empty ones, single polynomials) per parameter set; TLC checks the recorded "
+                       "1-3 dimensional ciphertext and plaintext containers incl. empty ones, single polynomials; for the RNS-plaintext wrapper (rnsp_*: ciphertexts in its three formats, "
+                       "vectors, public / relinearization / Galois keys, each the concatenation of its per-plain-modulus components)) per parameter set; TLC checks the recorded "
                        "sequence of write widths against Layout(shape) of Serialize.tla, the four sizes, and the round-trip / cross-context / two-in-one-stream / "
                        "interchangeability observations; distinct = distinct (object kind, shape)")
     rep.cov["objects_per_pset"] = {ps: sum(1 for e in events if e["pset"] == ps) for ps in psets}
     for b in bad:
         e = events[b[0] - 1]
-        sig = {"object": e["name"], "scheme": e["pset"].split("_")[0]}
+        sig = {"object": e["name"].split(":")[-1], "scheme": e["pset"].split("_")[0]}
         rep.violation(sig, {"event": e})
     rep.samples += [{k: events[i][k] for k in ("pset", "name", "shape", "rle", "announced")} for i in (0, len(events) // 2, len(events) - 1)]
     rep.assumptions += ["the shape of an object is read off its metadata by harness/src/ser.rs (size, level -> residue byte widths, seededness)",
